@@ -845,3 +845,104 @@ Proof.
   unfold read_packet in R. unfold rp. destruct (read_frame (b ++ rest)) as [[f r]|]; [|discriminate].
   injection R as R1 R2. rewrite R1, R2. reflexivity.
 Qed.
+
+(* ================================================================== the consumer loop sees exactly the items of the exchange *)
+(* consume_is_fold (ClientProps) says the result of a public call is the handler folded over SOME list of items.  When the
+   exchange on the current connection goes through (every poll hands over an item in time, the last one final), that list is
+   exactly the list of items polled: no retry, no reconnect, nothing skipped, nothing duplicated. *)
+
+(* conversion-order hint for Qed: never unfold the fuelled loops or their fuel when comparing terms *)
+Local Strategy 1000 [consume retry_next RFUEL LOOPFUEL].
+
+Inductive polls_ok (q : seqdef) (T id : N) : phase -> world -> list (N * value) -> Prop :=
+| po_last ph w i v w' :
+    seq_next q id ph (w_now w + T) w = NItem (IOk i v) PDone w' -> polls_ok q T id ph w [(i, v)]
+| po_more ph w i v w1 its :
+    seq_next q id ph (w_now w + T) w = NItem (IOk i v) PLoop w1 -> polls_ok q T id PLoop w1 its ->
+    polls_ok q T id ph w ((i, v) :: its).
+
+Lemma seq_next_cur q id ph d w : match seq_next q id ph d w with NItem _ _ w' | NEnd w' | NTimeout w' => w_cur w' = w_cur w end.
+Proof. pose proof (seq_next_ext q id ph d w) as X. destruct (seq_next q id ph d w); apply (x_cur _ _ _ X). Qed.
+
+Lemma at_time_now w : at_time w (w_now w) = w.
+Proof. destruct w. reflexivity. Qed.
+
+Lemma retry_inner f cfg r w id ph : r_ph r = RInner ph -> w_cur w = Some id ->
+  retry_next (S f) cfg r w =
+  match seq_next (r_seq r) id ph (w_now w + r_timeout r) w with
+  | NTimeout w' => retry_next f cfg (rs_set r (r_left r) (r_first r) (r_last r) RIdle) (drop_cur w')
+  | NEnd w' => (None, rs_set r (r_left r) (r_first r) (r_last r) REnd, w')
+  | NItem (IOk i v) ph' w' => (Some (IOk i v), rs_set r (r_left r) (r_first r) (r_last r) (RInner ph'), w')
+  | NItem (IErr e) _ w' => (Some (IErr e), rs_set r (r_left r) (r_first r) (r_last r) RAfterErr, w')
+  end.
+Proof. intros P C. cbn [retry_next]. rewrite P, C. reflexivity. Qed.
+
+Theorem consume_follows_polls {A B} cfg (h : A -> N -> value -> option (cres B) * A) fin id :
+  forall its ph fuel r w acc,
+  r_ph r = RInner ph -> w_cur w = Some id ->
+  polls_ok (r_seq r) (r_timeout r) id ph w its -> (length its < fuel)%nat ->
+  fst (consume fuel cfg r w acc h fin) = run_handler h fin acc its.
+Proof.
+  induction its as [|[i v] its IH]; intros ph fuel r w acc P C Hp Hf; [inversion Hp|].
+  destruct fuel as [|fuel]; [cbn in Hf; lia|]. cbn [consume]. unfold RFUEL.
+  rewrite (retry_inner 63 cfg r w id ph P C).
+  inversion Hp as [ph0 w0 i0 v0 w' E Eph Ew Eits|ph0 w0 i0 v0 w1 its0 E Hrest Eph Ew Eits].
+  - rewrite E. cbn [run_handler]. destruct (h acc i v) as [[res|] acc']; [reflexivity|].
+    (* the sequence is done: the next poll ends the stream *)
+    destruct fuel as [|fuel]; [reflexivity|]. cbn [consume]. unfold RFUEL.
+    pose proof (seq_next_cur (r_seq r) id ph (w_now w + r_timeout r) w) as Cw. rewrite E in Cw.
+    rewrite (retry_inner 63 cfg (rs_set r (r_left r) (r_first r) (r_last r) (RInner PDone)) w' id PDone eq_refl ltac:(congruence)).
+    cbn [rs_set r_seq r_timeout seq_next]. reflexivity.
+  - rewrite E. cbn [run_handler]. destruct (h acc i v) as [[res|] acc']; [reflexivity|].
+    pose proof (seq_next_cur (r_seq r) id ph (w_now w + r_timeout r) w) as Cw. rewrite E in Cw.
+    apply (IH PLoop fuel _ w1 acc'); [reflexivity|congruence|cbn [rs_set r_seq r_timeout]; exact Hrest|cbn in Hf; lia].
+Qed.
+
+Lemma consume_S {A B} f cfg r w (acc : A) (h : A -> N -> value -> option (cres B) * A) fin :
+  consume (S f) cfg r w acc h fin =
+  match retry_next RFUEL cfg r w with
+  | (None, _, w') => (fin acc, w')
+  | (Some (IErr _), r', w') => consume f cfg r' w' acc h fin
+  | (Some (IOk i v), r', w') =>
+      match h acc i v with
+      | (Some res, _) => (res, w')
+      | (None, acc') => consume f cfg r' w' acc' h fin
+      end
+  end.
+Proof. reflexivity. Qed.
+
+(* the first poll of a call leaves RIdle for RInner PStart without waiting (first attempt) and without connecting (a connection is there) *)
+Lemma first_poll_reuses cfg q T w id : w_cur w = Some id ->
+  retry_next RFUEL cfg (start_retry q T) w =
+  retry_next RFUEL cfg (rs_set (rs_set (start_retry q T) 19 false (w_now w) RIdle) 19 false (w_now w) (RInner PStart)) w.
+Proof.
+  intros C. set (r1 := rs_set (rs_set (start_retry q T) 19 false (w_now w) RIdle) 19 false (w_now w) (RInner PStart)).
+  transitivity (retry_next 63 cfg r1 w).
+  - change RFUEL with (S 63). rewrite (reuse_without_connect 63 cfg (start_retry q T) w id 19 eq_refl eq_refl C).
+    cbn [start_retry r_first]. rewrite at_time_now. reflexivity.
+  - apply retry_fuel_irrelevant; unfold rmeasure, r1, RFUEL; cbn [rs_set r_left r_ph]; lia.
+Qed.
+
+(* from the start of a call: the current connection is reused, the first poll sends the command *)
+Theorem call_follows_polls {A B} cfg (h : A -> N -> value -> option (cres B) * A) fin q T id its fuel w acc :
+  w_cur w = Some id -> polls_ok q T id PStart w its -> (length its < fuel)%nat ->
+  fst (consume fuel cfg (start_retry q T) w acc h fin) = run_handler h fin acc its.
+Proof.
+  intros C Hp Hf. destruct fuel as [|fuel]; [lia|].
+  set (r1 := rs_set (rs_set (start_retry q T) 19 false (w_now w) RIdle) 19 false (w_now w) (RInner PStart)).
+  pose proof (consume_follows_polls cfg h fin id its PStart (S fuel) r1 w acc eq_refl C Hp Hf) as G.
+  rewrite consume_S in G. rewrite consume_S, (first_poll_reuses cfg q T w id C). exact G.
+Qed.
+
+(* for instance reading a card: the result is the classification fold over exactly the replies received *)
+Corollary read_card_follows_polls cfg w id its :
+  let t := c_read_card_timeout cfg in
+  let cmd := mk_cmd "zvt::packets::ReadCard" [VInt t]
+               [(25, VSome (VInt 16)); (252, VSome (VInt 2));
+                (6, VSome (VRec (build_rec (snd (layout_of "zvt::packets::tlv::ReadCard")) [] [(7957, VSome (VInt 208)); (8032, VSome (VInt 7))])))] in
+  w_cur w = Some id ->
+  polls_ok (seq_of "zvt::sequences::ReadCard" cmd) ((t + 2) * 1000) id PStart w its -> (length its < LOOPFUEL)%nat ->
+  fst (read_card cfg w) =
+  run_handler (h_read_card (variant_ix "zvt::sequences::ReadCardResponse" "Abort") (variant_ix "zvt::sequences::ReadCardResponse" "StatusInformation"))
+              f_read_card None its.
+Proof. intros t cmd C Hp Hf. unfold read_card. apply (call_follows_polls cfg _ _ _ _ id its LOOPFUEL w None C Hp Hf). Qed.
